@@ -8,6 +8,22 @@ var commonAssumptions = []string{
 }
 
 func init() {
+	register("C01", &propDef{
+		Run: runC01,
+		Info: propInfo{
+			Explanation: "Delivery rules of the virtual network on SSA/CFG/call graph: WriteTo copies the payload into a fresh slice (taint) and Clone deep-copies it; every function on the datagram path forwards at most once per datagram (path counting per call / per dequeued chunk) and forwards the very chunk it received/dequeued/translated; a datagram is dropped only on the enumerated drop edges (each conditional edge that cannot reach a forward any more is classified by the kind of its guard and compared with a frozen table); the queue is a FIFO consumed only by processChunks, which runs only in the single goroutine Start launches on the not-started edge under the mutex; the host delivers to the socket looked up by the destination address on the found edge; towards the parent exactly the outbound translation's non-error result is pushed; the wake-up channel has capacity >= 1 and a token follows every successful enqueue; sends on a socket's receive queue are non-blocking, under its mutex, on the !closed edge, and the queue is closed once in that critical section; no go/deferred forward on the datagram path; the chunk carries the determined source IP, the local port and the caller's destination. NAT address correctness is C02/C03; capacity conditions and timing are not decided.",
+			RuleText:    "one obligation per rule; sites are forwards, drop edges, channel operations, stores and call-graph edges; non-trivial = matched at least one site",
+			Assumptions: commonAssumptions,
+		},
+	})
+	register("C13", &propDef{
+		Run: runC13,
+		Info: propInfo{
+			Explanation: "Address-uniqueness rules: the automatic allocator returns an address only on the not-present edge of a lookup of that very address in the NIC table, is always called with the router mutex held (caller-holds inference) and bounds the host byte before advancing it, reporting exhaustion otherwise; registration in the NIC table (one site) is dominated by the subnet test on that very address; a socket is created/inserted only after the ownership test and after a successful ephemeral search in 5000-5999 or the not-found edge of the conflict lookup (edge cut), with every caller holding the host mutex exclusively; assignPort returns exactly the port it probed free; insert's conflict predicate and find's match predicate are both (stored IP unspecified || equal IP) on the bucket of the port; Close releases the socket's own address exactly on the !closed edge and the host deletes it from the table; inbound datagrams go to the socket found for their destination.",
+			RuleText:    "one obligation per rule; sites are returns, map updates, calls, call-graph edges; non-trivial = matched at least one site",
+			Assumptions: commonAssumptions,
+		},
+	})
 	register("C02", &propDef{
 		Run: runC02,
 		Info: propInfo{
